@@ -33,6 +33,8 @@ Definition proc_eqb (a b : proc) : bool :=
   | PDown, PDown | PFatal, PFatal => true
   | PIdle m, PIdle m' => mode_eqb m m'
   | PRun p m, PRun p' m' => pops_eqb p p' && mode_eqb m m'
+  | PSeal p e, PSeal p' e' => pops_eqb p p' && Bool.eqb e e'
+  | PPar p q m, PPar p' q' m' => pops_eqb p p' && pops_eqb q q' && mode_eqb m m'
   | _, _ => false
   end.
 
@@ -53,8 +55,9 @@ Fixpoint closure (fuel : nat) (nx : st -> list st) (todo seen : list st) : optio
       end
   end.
 
+Definition reach_fuel := 20 * 1000.
 Definition reach_of (pg : progs) (sorted : bool) : list st :=
-  match closure 5000 (next pg sorted) [init_st] [] with Some l => l | None => [] end.
+  match closure reach_fuel (next pg sorted) [init_st] [] with Some l => l | None => [] end.
 
 Definition reach_sorted : list st := Eval vm_compute in reach_of cur_progs true.
 Definition reach_unsorted : list st := Eval vm_compute in reach_of cur_progs false.
